@@ -663,13 +663,14 @@ def combine_fields(arrlist):
         return arrlist[0]
 
     num = arrlist[0].size
+    shape = arrlist[0].shape
     descr = []
     for arr in arrlist:
         if arr.size != num:
             raise ValueError('not all arrays are the same size')
         descr += arr.dtype.descr
 
-    new_array = np.zeros(num, dtype=descr)
+    new_array = np.zeros(shape, dtype=descr)
 
     for arr in arrlist:
         copy_fields(arr, new_array)
